@@ -58,12 +58,14 @@ const (
 	lfWildMid       // f:b*c
 	lfRegexpShort   // f:/b/
 	lfSpecialFloat  // f:NaN, f:Inf, f:-Inf
+	lfRangeComma    // f:["a,b" TO "c"]  (a string bound containing a comma)
+	lfEqSpecial     // f:"it's, x"  (quote, comma, space in an equality value)
 	lfAllCount
 )
 
 var leafNames = []string{"bare", "eq-str", "eq-int", "bare-int", "gt", "ge", "lt", "le", "range-incl", "range-excl", "range-lo", "range-hi",
 	"range-str", "list", "wild", "regexp", "quoted", "float", "bare-wild", "", "range-excl-str", "range-str-lo", "range-str-hi", "range-all",
-	"range-excl-lo", "range-excl-hi", "range-float", "range-float-excl", "list-int", "wild-mid", "regexp-short", "special-float"}
+	"range-excl-lo", "range-excl-hi", "range-float", "range-float-excl", "list-int", "wild-mid", "regexp-short", "special-float", "range-str-comma", "eq-special"}
 
 // concreteFields makes field names the fixed sequence p, q, r, ... (one per leaf) instead of
 // symbolic bytes; used where rows have to be looked up by name.
@@ -168,6 +170,13 @@ func genLeaf(forms []int) *node {
 	case lfRegexpShort:
 		lf.field = holeField()
 		lf.s1 = string([]byte{'/', holeByte("re", strRest+"."), '/'})
+	case lfRangeComma:
+		lf.field = holeField()
+		lf.s1 = string([]byte{holeByte("str", strFirst), ',', holeByte("str", strRest)})
+		lf.s2 = string([]byte{'x', holeByte("str", strRest)})
+	case lfEqSpecial:
+		lf.field = holeField()
+		lf.s1 = string([]byte{holeByte("str", strRest), '\'', ',', ' ', holeByte("str", strRest+"';-/*")})
 	case lfSpecialFloat:
 		lf.field = holeField()
 		lf.s1 = []string{"NaN", "Inf", "infinity"}[rtChoose("special", 3)]
@@ -302,6 +311,10 @@ func printLeaf(lf *leaf, o *printOpts) string {
 		return lf.field + ":(" + lf.d1 + sp(o) + kw("OR", o) + sp(o) + lf.d2 + ")"
 	case lfWildMid, lfRegexpShort, lfSpecialFloat:
 		return lf.field + ":" + lf.s1
+	case lfRangeComma:
+		return lf.field + ":[\"" + lf.s1 + "\"" + sp(o) + kw("TO", o) + sp(o) + "\"" + lf.s2 + "\"]"
+	case lfEqSpecial:
+		return lf.field + ":\"" + lf.s1 + "\""
 	}
 	return "?"
 }
